@@ -199,6 +199,18 @@ func runC04(r *Run) {
 	if !h.openConns(nconn) {
 		return
 	}
+	if h.maxPages >= 700 && t.Chance(1, 3) {
+		// start beyond the first checksum block
+		c := h.conns[0]
+		c.Mode = h.jmode
+		res := c.WriteTx(TxProgram{NewSize: BigSize(t, h.maxPages), Outcome: OutCommit}, nil)
+		if res.Outcome != OutCommit {
+			r.Failf("hist.commit-refused", "creating a large database was refused at %s: %v", res.FailedAt, res.Errno)
+			return
+		}
+		h.ref = res.After
+		r.Cfg["big_start"] = h.ref.N()
+	}
 	var lastPos ltx.Pos
 	for i := 0; i < nsteps && !r.Failed(); i++ {
 		r.Step()
